@@ -372,9 +372,8 @@ def guards(ctx):
 
 
 # ------------------------------------------------------- R-C04-readonly-input
-def readonly(ctx):
+def readonly(ctx, R="R-C04-readonly-input"):
     prog = ctx.prog
-    R = "R-C04-readonly-input"
     eff = Effects(prog)
     entries = []
     for cname in ("compute.ShortTimeFourierTransformFrameComputer", "compute.ShortIntegrationFrameComputer"):
